@@ -3,7 +3,9 @@ CONSTANTS
   N = 3
   MaxDeliver = 3
   MaxCrash = 1
+  Readers = 0
+  ReadFill = FALSE
   Forks = TRUE
   Gaps = FALSE
-INVARIANTS InvHeadLinked InvIndex InvHeadState InvMarks InvExecuted InvWeightMonotone InvWeightMonotoneFork
+INVARIANTS InvCache InvHeadLinked InvIndex InvHeadState InvMarks InvExecuted InvWeightMonotone InvWeightMonotoneFork
 CHECK_DEADLOCK FALSE
